@@ -61,6 +61,12 @@ func C04(c *fw.Ctx) {
 		label := j.ID[:strings.Index(j.ID, "/")]
 		c.Count(jobKey(j), res.Accepted)
 		c.Inc("streams", label, 1)
+		if res.Fatal != nil && res.Fatal.Stage == "build" {
+			// the process died while the project was being built: that is C01's matter, no accessor was ever called
+			c.Count(jobKey(j), false)
+			c.Inc("verdicts", "died-during-the-build(judged by C01)", 1)
+			return
+		}
 		if res.Fatal != nil {
 			// the worker died or hung while building or while serialising/exporting: either way the accessor never returned
 			c.Violate("fatal:"+res.Fatal.Kind+":"+res.Fatal.Func, "the worker process died or hung during the job: "+firstLines(res.Fatal.Stderr, 5), replayOf(j, res))
